@@ -31,13 +31,21 @@ def run(pid, tier):
         mixed.update({'maxGenerations': 3, 'threads': 1, 'kmax': 3, 'stride': 50, 'realtime': False})
         cases.append(mixed)
     MIXED = 'break with multiple places is not supported'
+    # recorded inputs kept under watch (watch/*.json: finding key, the text the failure is recognised by, the case)
+    import glob
+    watch = {}
+    for f in sorted(glob.glob(os.path.join(common.ROOT, 'watch', '*.json'))):
+        w = json.load(open(f))
+        wc = w['case']; wc['id'] = 'watch-' + os.path.basename(f)[:-5]
+        wc.update({'maxGenerations': 3, 'threads': 1, 'kmax': 2, 'stride': 50, 'realtime': False})
+        cases.append(wc); watch[wc['id']] = w
     d = common.workdir(pid + '-quota')
     fin, fout = os.path.join(d, 'cases.ndjson'), os.path.join(d, 'runs.ndjson')
     common.write_ndjson(fin, cases)
     common.run_bin('quota', ['--in', fin, '--out', fout, '--jobs', 10], timeout=7000, log=os.path.join(d, 'quota.log'), package='vh-prag')
     cases_by_id = {c['id']: c for c in cases}
     runs = [r for r in common.read_ndjson(fout) if r['mode'] != 'read']
-    panicked_mixed = [r for r in runs if mixed is not None and r['id'] == mixed['id'] and MIXED in r.get('error', '')]
+    panicked_mixed = [r for r in runs if (mixed is not None and r['id'] == mixed['id'] and MIXED in r.get('error', '')) or (r['id'] in watch and watch[r['id']]['match'] in r.get('error', ''))]
     invalid = sum(1 for r in common.read_ndjson(fout) if r['mode'] == 'read')
     if not runs:
         raise ToolError('no runs recorded')
@@ -56,6 +64,8 @@ def run(pid, tier):
             what = 'before-first-initial' if (r['mode'] in ('term', 'realtime') and r['k'] == 0) else r['mode']
             if mixed is not None and r['id'] == mixed['id'] and MIXED in r.get('error', ''):
                 what = 'break-places-with-and-without-location'
+            if r['id'] in watch and watch[r['id']]['match'] in r.get('error', ''):
+                what = watch[r['id']]['key'].split('/')[-1]
             verdict.add('C07/ReturnsSolution/%s' % what, 'run %s: solver returned %s (%s) after events "%s"' % (rid, r['status'], r.get('error', '')[:120], r['events'][:80]),
                         {'case': cases_by_id[r['id']], 'run': {k: v for k, v in r.items() if k != 'solution'}})
     # 3. trace validation against the control-loop model (single-threaded runs, events in call order)
